@@ -1,6 +1,6 @@
 """C31 — in-process and subprocess execution agree (DESIGN §5 C31).
 
-Four kinds of cases, all against the REAL `SubprocessTestCaseExecutor` / `TestCaseExecutor`:
+Six kinds of cases, all against the REAL `SubprocessTestCaseExecutor` / `TestCaseExecutor`:
 
 * `real`   — test cases produced by the real `TestFactory` for small instrumented modules, regression
   assertions attached by the real `AssertionGenerator._add_assertions_for` (some then falsified), executed
@@ -17,6 +17,20 @@ Four kinds of cases, all against the REAL `SubprocessTestCaseExecutor` / `TestCa
   assertion objects with identical, renamed, colliding, partial and foreign bindings.
 * `pickle` — the real `_fix_result_for_pickle` + `_create_new_reference_bindings` on results holding
   unpicklable exceptions and assertion values.
+* `config` — configuration transport: the real `execute_multiple` / `_setup_subprocess_execution` /
+  `_execute_test_cases_in_subprocess` / `_fallback_on_failure` with the operating system replaced by a
+  synchronous stand-in for `multiprocess` (the "child" runs `target(*args)` in this process).  Recorded: the
+  `args` tuple of every started child, the `poll` time-out the parent waits with, what the child entry point
+  receives by parameter name, the `TestCaseExecutor` the child builds (both time settings, subject properties,
+  provider, observers) and the `timeout=` of the watchdog `join` of the REAL `TestCaseExecutor.execute` for every
+  test, in the child and in-process — under non-default, distinct values of the two time settings, for the
+  batch child and the one-by-one children of the crash fallback.  The model (`launches`, `childEntry`,
+  `timeBound`, `pollTimeout`) must predict all of it.
+* `slow`   — real forked children again, on test cases whose run time is known by construction (`time.sleep` in
+  the subject): slower than one per-statement slice but far inside their budget (must finish in both modes),
+  or (thorough tier) far over their budget (must be a time-out in both modes).  Slowness of the machine is never
+  a failure: a subprocess time-out only counts when the whole subprocess call returned in less than half the
+  configured bound of that test.
 
 Oracle (independent of the model): the property in its own words — per test the subprocess result has the
 same time-out flag, exception types per position, covered lines, branch outcomes, assertion trace and
@@ -258,7 +272,29 @@ def _reset():
     pass
 '''
 
-SUTS = {"a": SUT_A, "b": SUT_B, "c": SUT_C, "e": SUT_E, "d": SUT_D}
+SUT_S = '''
+import time
+
+
+def nap(ms: int, flag: int) -> int:
+    time.sleep(ms / 1000.0)
+    if flag > 3:
+        return ms + flag
+    return ms - flag
+
+
+def boom(flag: int) -> int:
+    if flag > 3:
+        raise ValueError("late")
+    return flag
+
+
+def _reset():
+    pass
+'''
+
+SUTS = {"a": SUT_A, "b": SUT_B, "c": SUT_C, "e": SUT_E, "d": SUT_D, "s": SUT_S}
+OBS_POOL = ["ObsA", "ObsB", "ObsC", "RemoteAssertionTraceObserver"]
 
 ASSERT_KINDS = ["TypeName", "Float", "Object", "IsInstance", "CollectionLength", "Exception"]
 EXC_NAMES = ["ValueError", "KeyError", "ZeroDivisionError", "TypeError"]
@@ -384,20 +420,33 @@ class C31(PropertyCheck):
     n_quick = 280
     n_thorough = 4800
     n_search = 1200
-    real_every = {"quick": 47, "thorough": 60}
-    rule = ("every 47th (quick) / 60th (thorough) case is a batch of 2-5 test cases from the real TestFactory on "
+    real_every = {"quick": 70, "thorough": 60}
+    slow_every = {"quick": 150, "thorough": 150}
+    rule = ("every 70th (quick) / 60th (thorough) case is a batch of 2-5 test cases from the real TestFactory on "
             "one of 4 small modules, with regression assertions (some falsified), run by a real forked child and "
-            "in-process, 1 in 6 of them with a child-only crash; the rest: 45 % rebinding cases on real "
-            "traces, 35 % scripted-child plumbing cases (all crash patterns, wrong lengths, foreign bindings), "
-            "20 % pickle-safety cases; non-trivial = real batch with at least one assertion and one covered "
-            "predicate, a plumbing case with a failing child or a lying answer, a rebinding with renamed or "
-            "foreign bindings, a pickle case with an unpicklable item")
+            "in-process, 1 in 6 of them with a child-only crash; every 150th case (+ 1 corpus case) is a batch with a "
+            "sleeping test of known run time (slower than one per-statement slice, >= 12x inside its budget; "
+            "thorough tier also 2x over budget) run by a real forked child and in-process under distinct time "
+            "settings; the rest: 38 % rebinding cases on real traces, 30 % scripted-child plumbing cases (all crash "
+            "patterns, wrong lengths, foreign bindings), 17 % pickle-safety cases, 15 % configuration-transport "
+            "cases (distinct non-default time settings, 0-3 remote and 0-2 plain observers, batches of 0-4 tests of "
+            "0-6 statements, every dead/alive pattern of batch child and one-by-one children); non-trivial = real "
+            "batch with at least one assertion and one covered predicate, a plumbing case with a failing child or a "
+            "lying answer, a rebinding with renamed or foreign bindings, a pickle case with an unpicklable item, a "
+            "configuration case with a test of >= 2 statements and a running child, every slow case")
     assumptions = [
         "fork start method (multiprocess default on Linux, as in pynguin's own tests); the spawn start method "
         "used by the command line is not exercised",
         "test cases are deterministic given the process state at the start of the execution (the harness resets "
         "the module state before each run; PYTHONHASHSEED is inherited by the child)",
         "time-outs of 60 s per statement / 120 s per test for terminating tests, so that load cannot fake one",
+        "slow cases: a sleeping test runs >= 0.6 s longer than one per-statement slice and its budget is >= 12x its "
+        "run time; a subprocess time-out of such a test is a violation only if the whole subprocess call returned "
+        "in less than half that budget and no crash fallback ran (a legitimate time-out waits for the full budget, a "
+        "child killed by the operating system triggers the fallback), otherwise the test is counted as inconclusive; in-process results that contradict the nominal run time make the case "
+        "inconclusive as well",
+        "configuration cases replace `multiprocess` by a synchronous stand-in (Pipe = list, Process.start runs "
+        "target(*args) here); fork/pickle of the tuple is exercised by the real and slow cases",
     ]
     trusted_base_extra = [
         "harness/c31.py: the canonical form of an ExecutionResult, the scripted child of the plumbing cases, "
@@ -413,6 +462,9 @@ class C31(PropertyCheck):
         self.extra_coverage["real_batches"] = 0
         self.extra_coverage["real_tests_compared"] = 0
         self.extra_coverage["child_processes"] = 0
+        self.extra_coverage["config_children_recorded"] = 0
+        self.extra_coverage["slow_tests_compared"] = 0
+        self.extra_coverage["slow_inconclusive"] = 0
 
     # -- set-up ---------------------------------------------------------------------------------
     def _setup(self):
@@ -489,6 +541,9 @@ class C31(PropertyCheck):
     # -- generation -----------------------------------------------------------------------------
     def gen_case(self, rng):
         self._ncase += 1
+        if self._ncase % self.slow_every[self.tier] == 0:
+            self.count("kind:slow")
+            return self._gen_slow(rng)
         if self._ncase % self.real_every[self.tier] == 0:
             crash = rng.random() < 1 / 6
             self.count("kind:real-crash" if crash else "kind:real")
@@ -496,14 +551,52 @@ class C31(PropertyCheck):
                     "seed": rng.randrange(1 << 30), "k": rng.randint(2, 3) if crash else rng.randint(2, 5),
                     "crash": crash, "falsify": rng.randrange(1 << 30)}
         k = rng.random()
-        if k < 0.45:
+        if k < 0.38:
             self.count("kind:fix")
             return self._gen_fix(rng)
-        if k < 0.80:
+        if k < 0.68:
             self.count("kind:plumb")
             return self._gen_plumb(rng)
-        self.count("kind:pickle")
-        return self._gen_pickle(rng)
+        if k < 0.85:
+            self.count("kind:pickle")
+            return self._gen_pickle(rng)
+        self.count("kind:config")
+        return self._gen_config(rng)
+
+    @staticmethod
+    def _gen_config(rng):
+        """Distinct, non-default time settings; observers; a batch; which started children are alive."""
+        max_t = rng.randint(6, 90)
+        per = rng.choice([x for x in range(5, 41) if x != max_t])
+        n = rng.choice([0, 1, 1, 2, 2, 3, 3, 4])
+        sizes = [rng.choice([0, 1, 2, 2, 3, 4, 5, 6]) for _ in range(n)]
+        stmts = [[None if rng.random() < 0.2 else f"var_{j}" for j in range(sz)] for sz in sizes]
+        alive = [rng.random() < 0.6] + [rng.random() < 0.7 for _ in range(n)]
+        return {"kind": "config", "maxT": max_t, "perStmt": per,
+                "remoteObs": [rng.choice(OBS_POOL) for _ in range(rng.randint(0, 3))],
+                "obs": [rng.choice(OBS_POOL[:3]) for _ in range(rng.choice([0, 0, 1, 2]))],
+                "stmts": stmts, "alive": alive, "via": rng.choice(["multiple", "multiple", "execute"]) if n == 1
+                else "multiple"}
+
+    def _gen_slow(self, rng):
+        """A batch with one sleeping test whose run time is known, under distinct time settings."""
+        over = self.tier == "thorough" and rng.random() < 0.25
+        fast = lambda: {"n": rng.randint(2, 6), "naps": [rng.choice([0, 0, 40])], "flag": rng.randint(0, 7),  # noqa: E731
+                        "boom": rng.random() < 0.3}
+        if over:      # budget = maxT; the test sleeps twice as long (+0.6 s)
+            max_t, per = rng.choice([2, 3]), rng.randint(20, 40)
+            slow = {"n": 3, "naps": [2 * max_t * 1000 + 600], "flag": rng.randint(0, 7), "boom": False}
+            tests = [slow] + [dict(fast(), n=3) for _ in range(rng.choice([0, 2, 3]))]
+        else:         # budget = min(maxT, per * n) >= 24 s; the test sleeps per + 0.6 .. per + 0.9 s
+            per = rng.choice([1, 1, 2])
+            max_t = rng.randint(45, 90)
+            total = per * 1000 + rng.randint(600, 900)
+            first = rng.choice([total, total // 2, total - 100])
+            naps = [first] + ([total - first] if total > first else [])
+            slow = {"n": rng.randint(24, 40), "naps": naps, "flag": rng.randint(0, 7), "boom": rng.random() < 0.4}
+            tests = [slow] + [fast() for _ in range(rng.choice([0, 1, 1]))]
+            rng.shuffle(tests)
+        return {"kind": "slow", "maxT": max_t, "perStmt": per, "tests": tests}
 
     @staticmethod
     def _gen_stmts(rng, n=None):
@@ -724,6 +817,328 @@ class C31(PropertyCheck):
         out["launched"] = [list(k) for k in launched]
         return out
 
+    # -- implementation adapter: configuration transport ------------------------------------------
+    def _observer_classes(self):
+        """Harness observers (do nothing; identified by their class name) — defined once pynguin is importable."""
+        if hasattr(self, "_obs_cls"):
+            return self._obs_cls
+        import pynguin.assertion.assertiontraceobserver as ato
+        from pynguin.testcase.execution_observers import ExecutionObserver, RemoteExecutionObserver
+
+        class _Remote(RemoteExecutionObserver):
+            def before_test_case_execution(self, test_case):
+                pass
+
+            def after_test_case_execution(self, executor, test_case, result):
+                pass
+
+        class _Plain(ExecutionObserver):
+            def __init__(self, remote):
+                self._remote = remote
+
+            @property
+            def remote_observer(self):
+                return self._remote
+
+            def before_remote_test_case_execution(self, test_case):
+                pass
+
+            def after_remote_test_case_execution(self, test_case, result):
+                pass
+
+        remote = {n: type(n, (_Remote,), {}) for n in OBS_POOL[:3]}
+        remote["RemoteAssertionTraceObserver"] = ato.RemoteAssertionTraceObserver
+        self._obs_cls = (remote, _Plain)
+        return self._obs_cls
+
+    def _config_module(self):
+        name = f"c31cfg_{os.getpid()}"
+        path = os.path.join(self.tmp, name + ".py")
+        if not os.path.exists(path):
+            with open(path, "w") as f:
+                f.write("X = 1\n")
+            importlib.invalidate_caches()
+        return name
+
+    def _impl_config(self, case):
+        """The real parent and child code with `multiprocess` replaced by a synchronous stand-in."""
+        import inspect
+        import logging
+        import threading
+        import pynguin.testcase.execution as exm
+        import pynguin.testcase.subprocess_executor as sem
+        import pynguin.testcase.testcase as tcm
+        from pynguin.testcase.execution_isolation import PatchRandomOnUnpickle
+        from pynguin.testcase.execution_observers import RemoteExecutionObserver
+        from pynguin.instrumentation.tracer import SubjectProperties
+        SE, TE = sem.SubprocessTestCaseExecutor, exm.TestCaseExecutor
+        remote_cls, plain_cls = self._observer_classes()
+        cfg = self.config.configuration
+        cfg.module_name = self._config_module()
+        sp = self.plumb_sp
+        tcs = [make_test_case(st) for st in case["stmts"]]
+        ids = {id(t): i for i, t in enumerate(tcs)}
+        launches, joins, state = [], [], {"cur": None, "parent": None}
+
+        def attach(executor):
+            for n in case["remoteObs"]:
+                executor.add_remote_observer(remote_cls[n]())
+            for n in case["obs"]:
+                executor.add_observer(plain_cls(remote_cls[n]()))
+
+        def canon_arg(a):
+            if isinstance(a, PatchRandomOnUnpickle):
+                return {"patchRandom": int(a._config is cfg)}
+            if isinstance(a, SubjectProperties):
+                return {"props": int(a is sp)}
+            if isinstance(a, exm.ModuleProvider):
+                return {"provider": int(a is state["parent"]._module_provider)}
+            if isinstance(a, int) and not isinstance(a, bool):
+                return {"num": a}
+            if isinstance(a, Send):
+                return "conn"
+            if isinstance(a, tuple):
+                if all(isinstance(x, RemoteExecutionObserver) for x in a):
+                    return {"observers": [type(x).__name__ for x in a]}
+                if all(isinstance(x, tcm.TestCase) for x in a):
+                    return {"tests": [ids.get(id(x), -1) for x in a]}
+                if all(isinstance(x, dict) for x in a):
+                    return {"bindings": [[[k, v] for k, v in x.items()] for x in a]}
+            return {"other": type(a).__name__}
+
+        class Recv:
+            def __init__(self, box):
+                self.box = box
+
+            def poll(self, timeout=None):
+                launches[-1]["poll"] = timeout
+                return bool(self.box)
+
+            def recv(self):
+                if not self.box:
+                    raise EOFError
+                return self.box.pop(0)
+
+            def close(self):
+                pass
+
+        class Send:
+            def __init__(self, box):
+                self.box = box
+
+            def send(self, obj):
+                self.box.append(obj)
+
+            def close(self):
+                pass
+
+        class Proc:
+            def __init__(self, target=None, args=(), kwargs=None, daemon=None, **_):
+                self.target, self.args, self.kwargs, self.exitcode = target, args, kwargs or {}, None
+
+            def start(self):
+                k = len(launches)
+                rec = {"args": [canon_arg(a) for a in self.args], "poll": None, "child": None}
+                launches.append(rec)
+                if not (k < len(case["alive"]) and case["alive"][k]):
+                    self.exitcode = 3          # died before sending anything
+                    return
+                state["cur"] = rec
+                rec["child"] = {"raises": True}
+                del joins[:]
+                try:
+                    self.target(*self.args, **self.kwargs)
+                    self.exitcode = 0
+                except BaseException:  # noqa: BLE001 - a real child would die here
+                    self.exitcode = 1
+                finally:
+                    if "maxT" in rec["child"]:
+                        rec["child"]["bounds"] = list(joins)
+                    state["cur"] = None
+
+            def join(self, timeout=None):
+                pass
+
+            def kill(self):
+                self.exitcode = -9
+
+        class FakeMp:
+            Process = Proc
+
+            @staticmethod
+            def Pipe(duplex=False):  # noqa: N802, FBT002
+                box = []
+                return Recv(box), Send(box)
+
+        class RecThread(threading.Thread):
+            def join(self, timeout=None):
+                if not getattr(self, "_c31_joined", False):
+                    self._c31_joined = True
+                    joins.append(timeout)
+                return super().join(timeout)
+
+        class ThreadingShim:
+            Thread = RecThread
+
+            def __getattr__(self, name):
+                return getattr(threading, name)
+
+        class RecExecutor(TE):
+            """The executor the child builds: record what it was built with."""
+
+            def __init__(self_, *a, **k):  # noqa: N805
+                super().__init__(*a, **k)
+                rec = state["cur"]
+                if rec is not None:
+                    rec["child"].pop("raises", None)
+                    rec["child"].update({"maxT": self_._maximum_test_execution_timeout,
+                                         "perStmt": self_._test_execution_time_per_statement,
+                                         "props": int(self_._subject_properties is sp),
+                                         "provider": int(self_._module_provider is state["parent"]._module_provider),
+                                         "observers": []})
+
+            def add_remote_observer(self_, o):  # noqa: N805
+                super().add_remote_observer(o)
+                rec = state["cur"]
+                if rec is not None and "observers" in rec["child"]:
+                    rec["child"]["observers"].append(type(o).__name__)
+
+        orig_entry = SE.__dict__["_execute_test_cases_in_subprocess"]
+        entry_fn = orig_entry.__func__ if isinstance(orig_entry, staticmethod) else orig_entry
+
+        def entry(*a, **k):
+            rec = state["cur"]
+            try:
+                b = inspect.signature(entry_fn).bind(*a, **k).arguments
+                hook = b.get("_patch_random_hook")
+                rec["child"]["settings"] = int(isinstance(hook, PatchRandomOnUnpickle) and hook._config is cfg)
+                rec["child"]["recv"] = [b.get("maximum_test_execution_timeout"), b.get("test_execution_time_per_statement")]
+                rec["child"]["recv"] = [x if isinstance(x, int) else type(x).__name__ for x in rec["child"]["recv"]]
+            except TypeError:
+                pass
+            return entry_fn(*a, **k)
+
+        saved = (sem.mp, sem.TestCaseExecutor, exm.threading)
+        logging.disable(logging.CRITICAL)
+        try:
+            sem.mp, sem.TestCaseExecutor, exm.threading = FakeMp, RecExecutor, ThreadingShim()
+            SE._execute_test_cases_in_subprocess = staticmethod(entry)
+            parent = SE(sp, maximum_test_execution_timeout=case["maxT"],
+                        test_execution_time_per_statement=case["perStmt"])
+            state["parent"] = parent
+            attach(parent)
+            want_obs = [type(o).__name__ for o in parent._yield_remote_observers()]
+            try:
+                if case["via"] == "execute":
+                    results = [parent.execute(tcs[0])]
+                else:
+                    results = list(parent.execute_multiple(tcs))
+                out = {"nres": len(results)}
+            except Exception as e:  # noqa: BLE001 - whatever the real code raises is its behaviour
+                out = {"err": type(e).__name__}
+            # the in-process executor with the same configuration: its watchdog bound per test
+            del joins[:]
+            local = TE(sp, parent._module_provider, case["maxT"], case["perStmt"])
+            attach(local)
+            for t in tcs:
+                local.execute(t)
+            out["local"] = list(joins)
+        finally:
+            sem.mp, sem.TestCaseExecutor, exm.threading = saved
+            SE._execute_test_cases_in_subprocess = orig_entry
+            logging.disable(logging.NOTSET)
+        out["launches"] = launches
+        out["wantObs"] = want_obs
+        self.extra_coverage["config_children_recorded"] += sum(1 for l in launches if l["child"])
+        return out
+
+    # -- implementation adapter: slow tests in real processes -----------------------------------------
+    def _slow_test(self, sut, spec):
+        import libcst as cst
+        import pynguin.testcase.testcase as tc
+        from pynguin.utils.naming import get_module_alias
+        alias = get_module_alias(sut["name"])
+        tail = [f"{alias}.nap({ms}, var_0)" for ms in spec["naps"]] + ([f"{alias}.boom(var_0)"] if spec["boom"] else [])
+        fill = max(0, spec["n"] - 1 - len(tail))
+        srcs = [f"var_0 = {spec['flag']}"] + [f"var_{i + 1} = {i}" for i in range(fill)]
+        srcs += [f"var_{len(srcs) + j} = {call}" for j, call in enumerate(tail)]
+        t = tc.TestCase()
+        for j, src in enumerate(srcs):
+            t.add_statement(tc.Statement(node=cst.parse_module(src + "\n").body[0], bound_variable=f"var_{j}"))
+        return t
+
+    def _impl_slow(self, case):
+        import logging
+        import time
+        import dill
+        from pynguin.testcase.execution import SubprocessTestCaseExecutor
+        sut = self._sut("s")
+        self.config.configuration.module_name = sut["name"]
+        sys.meta_path.insert(0, sut["hook"].hook)
+        logging.disable(logging.CRITICAL)
+        orig_setup = self._count_children(SubprocessTestCaseExecutor)
+        orig_fallback = SubprocessTestCaseExecutor._fallback_on_failure
+        fallbacks = []
+
+        def counting_fallback(self_, *a, **k):
+            fallbacks.append(1)
+            return orig_fallback(self_, *a, **k)
+        SubprocessTestCaseExecutor._fallback_on_failure = counting_fallback
+        try:
+            tests = [self._slow_test(sut, sp) for sp in case["tests"]]
+            loc, sub = self._executors(sut, (case["maxT"], case["perStmt"]))
+            t0 = time.monotonic()
+            try:
+                sub_out = [canon_result(r) for r in sub.execute_multiple(tests)]
+            except Exception as e:  # noqa: BLE001 - whatever the real code raises is its behaviour
+                sub_out = {"err": type(e).__name__}
+            wall_sub = time.monotonic() - t0
+            loc_res, wall_loc = [], []
+            for t, sp in zip(tests, case["tests"]):
+                t0 = time.monotonic()
+                loc_res.append(loc.execute(t))
+                el = time.monotonic() - t0
+                wall_loc.append(round(el, 2))
+                if loc_res[-1].timeout:   # let the abandoned thread die before the next test starts
+                    time.sleep(max(0.0, sum(sp["naps"]) / 1000.0 + 0.5 - el))
+            bindings = [[[p, v] for p, v in SubprocessTestCaseExecutor._create_variable_binding(t).items()]
+                        for t in tests]
+            bad_excs = [[p for p, e in r.exceptions.items() if dill.detect.baditems([e])] for r in loc_res]
+            bad_asserts = [[canon_assertion(a) for s in r.assertion_trace.trace.values() for a in s
+                            if dill.detect.baditems([a])] for r in loc_res]
+        finally:
+            SubprocessTestCaseExecutor._setup_subprocess_execution = orig_setup
+            SubprocessTestCaseExecutor._fallback_on_failure = orig_fallback
+            logging.disable(logging.NOTSET)
+            if sut["hook"].hook in sys.meta_path:
+                sys.meta_path.remove(sut["hook"].hook)
+        sizes = [t.size() for t in tests]
+        return {"sub": sub_out, "loc": [canon_result(r) for r in loc_res], "bindings": bindings, "badExcs": bad_excs,
+                "badAsserts": bad_asserts, "reaches": [False] * len(tests), "batchCrash": False, "loop": False,
+                "code": [t.to_code() for t in tests], "sizes": sizes,
+                "durs": [sum(sp["naps"]) for sp in case["tests"]],
+                "bounds": [min(case["maxT"], case["perStmt"] * max(n, 1)) for n in sizes],
+                "wallSub": round(wall_sub, 2), "wallLoc": wall_loc, "fallbacks": len(fallbacks)}
+
+    @staticmethod
+    def _slow_status(case, io):
+        """Per test of a slow case: 'ok' (comparable), 'early-timeout' (the subprocess reports a time-out although
+        a child answered (no crash fallback ran) and the whole subprocess call took less than half the bound of this
+        test — no legitimate time-out can be that fast), or 'inconclusive' (machine load or a child killed by the
+        operating system may explain what was observed)."""
+        out = []
+        sub = io["sub"] if isinstance(io["sub"], list) and len(io["sub"]) == len(io["loc"]) else None
+        for i, l in enumerate(io["loc"]):
+            nominal_timeout = io["durs"][i] >= 1000 * io["bounds"][i]
+            if l["timeout"] != nominal_timeout:
+                out.append("inconclusive")
+            elif sub is not None and sub[i]["timeout"] and not nominal_timeout:
+                early = io["wallSub"] < io["bounds"][i] / 2 and io.get("fallbacks", 0) == 0
+                out.append("early-timeout" if early else "inconclusive")
+            else:
+                out.append("ok")
+        return out
+
     # -- implementation adapter: real processes ----------------------------------------------------
     def _falsify(self, tests, rng):
         """Make some of the attached assertions wrong so that the verification trace is not empty."""
@@ -884,8 +1299,8 @@ class C31(PropertyCheck):
         self._setup()
         kind = case["kind"]
         out = {"fix": self._impl_fix, "pickle": self._impl_pickle, "plumb": self._impl_plumb,
-               "real": self._impl_real}[kind](case)
-        if kind == "real":
+               "real": self._impl_real, "config": self._impl_config, "slow": self._impl_slow}[kind](case)
+        if kind in ("real", "slow"):
             self._stash[vcommon.jdump(case)] = out
         return out
 
@@ -903,10 +1318,24 @@ class C31(PropertyCheck):
                       "run": {"timeout": True, "excs": [], "trace": [], "vfailed": [], "verror": [],
                               "cov": EMPTY_COV, "aux": []}, "probes": CLEAN} for t in case["tests"]]
             return vcommon.jdump({"exec": {"c": {"tests": tests, "batch": case["batch"], "singles": case["singles"]}}})
+        if kind == "config":
+            bound = [[[i, v] for i, v in enumerate(st) if v is not None] for st in case["stmts"]]
+            cfg = {"maxTimeout": case["maxT"], "perStatement": case["perStmt"], "props": 1, "provider": 1,
+                   "remoteObs": case["remoteObs"], "obs": case["obs"]}
+            return vcommon.jdump({"config": {"c": {"settings": 1, "cfg": cfg, "sizes": [len(st) for st in case["stmts"]],
+                                                   "bound": bound, "alive": case["alive"]}}})
         io = self._stash.pop(vcommon.jdump(case), None)
         if io is None:
             io = self.impl(case)
             self._stash.pop(vcommon.jdump(case), None)
+        if kind == "slow":
+            cfg = {"maxTimeout": case["maxT"], "perStatement": case["perStmt"], "props": 1, "provider": 1,
+                   "remoteObs": ["RemoteAssertionTraceObserver", "RemoteAssertionVerificationObserver"], "obs": []}
+            tests = [{"bound": b, "run": loc, "size": n, "dur": d,
+                      "probes": {"excs": {"bad": {"items": be}}, "asserts": {"bad": {"items": ba}}, "auxOut": []}}
+                     for b, loc, n, d, be, ba in zip(io["bindings"], io["loc"], io["sizes"], io["durs"],
+                                                     io["badExcs"], io["badAsserts"])]
+            return vcommon.jdump({"timed": {"c": {"cfg": cfg, "tests": tests}}})
         if io["loop"]:   # the only test never answers: the child is killed after the time-out
             crash_batch, crash_single = "noResults", ["noResults"]
         else:
@@ -928,6 +1357,22 @@ class C31(PropertyCheck):
             return mo.get("res") == io["res"] and mo.get("newB") == io["newB"]
         if kind == "plumb":
             return mo.get("ok") == io.get("ok") and mo.get("err") == io.get("err")
+        if kind == "config":
+            if "err" in io or mo.get("local") != io["local"] or len(mo.get("launches", [])) != len(io["launches"]):
+                return False
+            for ml, il in zip(mo["launches"], io["launches"]):
+                ic = None if il["child"] is None else {k: v for k, v in il["child"].items() if k != "recv"}
+                if ml["args"] != il["args"] or ml["poll"] != il["poll"] or ml["child"] != ic:
+                    return False
+                if il["child"] is not None and il["child"].get("recv") != [ml["child"].get("maxT"), ml["child"].get("perStmt")]:
+                    return False
+            return True
+        if kind == "slow":
+            if "inconclusive" in self._slow_status(case, io):
+                return True      # load may explain the observation: nothing to hold against the model
+            if isinstance(io["sub"], dict):
+                return mo.get("err") == io["sub"]["err"]
+            return mo.get("ok") == io["sub"] and mo.get("local") == io["loc"]
         if isinstance(io["sub"], dict):
             return mo.get("err") == io["sub"]["err"]
         if io["loop"]:  # an in-process time-out keeps no trace; the model's `run` is not consulted for a lost test
@@ -975,7 +1420,45 @@ class C31(PropertyCheck):
             return fs
         if kind == "plumb":
             return self._oracle_plumb(case, io)
+        if kind == "config":
+            return self._oracle_config(case, io)
         return self._oracle_real(case, io)
+
+    def _oracle_config(self, case, io):
+        """The child executor must treat every test of the batch like the in-process executor with the same
+        configuration: same watchdog bound for the test (else a deterministic test of that size that runs for a
+        time between the two bounds is a time-out in one mode only), same observers (else the facets these
+        observers fill differ).  Both sides are measured on the real code, not recomputed here."""
+        fs = []
+        sizes = [len(st) for st in case["stmts"]]
+        for k, l in enumerate(io.get("launches", [])):
+            ch = l["child"]
+            if not ch or "bounds" not in ch:
+                continue
+            tests = next((a["tests"] for a in l["args"] if isinstance(a, dict) and "tests" in a), None)
+            if tests is not None and len(tests) == len(ch["bounds"]) and all(0 <= i < len(sizes) for i in tests):
+                for i, b in zip(tests, ch["bounds"]):
+                    lb = io["local"][i]
+                    if b != lb:
+                        lo, hi = sorted([b, lb])
+                        fs.append(Failure(
+                            {"class": "timeout-flag-differs", "cause": "child-time-bound-differs"},
+                            f"executor settings maximum_test_execution_timeout={case['maxT']}, "
+                            f"test_execution_time_per_statement={case['perStmt']}: for test #{i} ({sizes[i]} statements) "
+                            f"the in-process executor waits {lb} s, the executor built in child #{k} "
+                            f"(maximum={ch.get('maxT')}, per statement={ch.get('perStmt')}; received "
+                            f"{ch.get('recv')}) waits {b} s: a deterministic test case of {sizes[i]} statements that "
+                            f"runs for more than {lo} s and less than {hi} s has timeout={lb < b} in-process and "
+                            f"timeout={b < lb} in the subprocess",
+                            detail={"launch": l}))
+                        break
+            if set(ch.get("observers", [])) != set(io["wantObs"]):   # a kind of observer missing / extra
+                fs.append(Failure({"class": "child-observers-differ"},
+                                  f"the in-process executor runs with remote observers {io['wantObs']}, the executor "
+                                  f"built in child #{k} with {ch.get('observers')}: the result facets these "
+                                  f"observers fill (assertion / verification trace) differ",
+                                  detail={"launch": l}))
+        return fs[:2]
 
     def _oracle_plumb(self, case, io):
         """Alignment, on honest answers: one result per test; each is its test's answer or a time-out."""
@@ -1035,8 +1518,24 @@ class C31(PropertyCheck):
             return [Failure({"class": "results-not-aligned", "what": "length"},
                             f"{len(loc)} test cases, {len(sub)} subprocess results")]
         any_crash = io.get("batchCrash", False)
+        status = self._slow_status(case, io) if case.get("kind") == "slow" else None
         for i, (s, l) in enumerate(zip(sub, loc)):
             code = io["code"][i]
+            if status is not None:
+                if status[i] == "inconclusive":
+                    self.extra_coverage["slow_inconclusive"] += 1
+                    continue
+                self.extra_coverage["slow_tests_compared"] += 1
+                if status[i] == "early-timeout":
+                    fs.append(Failure(
+                        {"class": "timeout-flag-differs", "cause": "subprocess-timeout-before-configured-bound"},
+                        f"test #{i} of the batch ({io['sizes'][i]} statements, sleeps {io['durs'][i]} ms; executor "
+                        f"settings maximum={case['maxT']} s, per statement={case['perStmt']} s, so its budget is "
+                        f"{io['bounds'][i]} s) finishes in-process (timeout=False, {io['wallLoc'][i]} s) but the "
+                        f"subprocess executor reports timeout=True although the whole subprocess call returned after "
+                        f"{io['wallSub']} s, less than half that budget; test case: {code}",
+                        detail={"batch": io["code"]}))
+                    continue
             if io["reaches"][i]:      # this test kills its child: not comparable, must be reported as time-out
                 if not s["timeout"]:
                     fs.append(Failure({"class": "crashed-child-not-reported-as-timeout"},
@@ -1076,6 +1575,12 @@ class C31(PropertyCheck):
         if kind == "plumb":
             reps = [case["batch"], *case["singles"]]
             return vcommon.jdump(case) if case["tests"] and (isinstance(case["batch"], str) or "err" in io) else None
+        if kind == "config":
+            ok = any(l["child"] for l in io.get("launches", [])) and any(len(st) >= 2 for st in case["stmts"])
+            self.count("config:children", len(io.get("launches", [])))
+            return vcommon.jdump(case) if ok else None
+        if kind == "slow":
+            return vcommon.jdump(case)
         if isinstance(io["sub"], dict):
             return vcommon.jdump(case)
         n_tr = sum(len(e[1]) for r in io["loc"] for e in r["trace"])
